@@ -1,7 +1,7 @@
 (* Props/C06.v — property C06: EER is a crossing point. Statements only.
    Model of the repaired tree (fix 8b94371: strict comparisons in the perfect-separation shortcut).
    succ/pred = np.nextafter; fuel = bound on bisection iterations (64 in the executable instance). *)
-From SA Require Import Model.Eer Proofs.InvIncrFacts Proofs.RoundtripFacts Proofs.EerFacts Proofs.EerGapFacts.
+From SA Require Import Model.Eer Proofs.InvIncrFacts Proofs.RoundtripFacts Proofs.EerFacts Proofs.EerGapFacts Proofs.CarrierB64.
 Open Scope Q_scope.
 
 (* 0 <= e <= 1 and e never exceeds the smaller of the two hard-sample fractions: all inputs with both
@@ -33,6 +33,14 @@ Theorem C06_fpr_side :
   within1 (cfp (cm s (Fin t))) (e * inject_Z (len (neg s) + easy_neg s)).
 Proof. exact eer_fpr_side. Qed.
 Print Assumptions C06_fpr_side.
+
+(* the two hypotheses on nextafter are theorems about the binary64 model (Proofs/CarrierB64.v) *)
+Theorem C06_fpr_side_binary64 :
+  forall (fuel : nat) (s : scores) (t e : Q),
+  proper s -> ssorted (neg s) -> eer succ64 pred64 fuel s = Ret (t, e) -> t = t_fpr succ64 pred64 s e ->
+  within1 (cfp (cm s (Fin t))) (e * inject_Z (len (neg s) + easy_neg s)).
+Proof. exact (C06_fpr_side succ64 pred64 succ64_gt pred64_lt). Qed.
+Print Assumptions C06_fpr_side_binary64.
 
 (* FNR side, _partial: proved whenever no scored positive is decided differently by the returned threshold and by
    the FNR-side threshold for e ([not_separated]: the two thresholds lie in the same gap between consecutive
